@@ -177,20 +177,22 @@ def Genome.duplicate (g : Genome W) (newId : Int) : Except Stop (Genome W) :=
 
 /-! ### small accessors used by several operators -/
 
-/-- `getLastNodeId` -/
+/-- the running maximum `for _, x := range xs { if x > acc { acc = x } }` -/
+def maxFrom (keys : List Int) (init : Int) : Int := keys.foldl (fun acc k => if k > acc then k else acc) init
+
+/-- `getLastNodeId` (as repaired by the `fix:` commit 48b1f99): starts from the last listed node, then takes the
+    maximum over all nodes and over the control nodes of all modules -/
 def Genome.lastNodeId (g : Genome W) : Except Stop Int :=
   match g.nodes.getLast? with
   | none => .error (.error "noNodes")
-  | some n => .ok (g.modules.foldl (fun acc m => if m.ctrl.id > acc then m.ctrl.id else acc) n.id)
+  | some n => .ok (maxFrom (g.modules.map (·.ctrl.id)) (maxFrom (g.nodes.map (·.id)) n.id))
 
-/-- `getNextGeneInnovNum` -/
+/-- `getNextGeneInnovNum` (as repaired by 48b1f99): starts from the last listed gene, then takes the maximum over all
+    genes and over all control genes; plus one -/
 def Genome.nextGeneInnov (g : Genome W) : Except Stop Int :=
   match g.genes.getLast? with
   | none => .error (.error "noGenes")
-  | some last =>
-    match g.modules.getLast? with
-    | none => .ok (last.inn + 1)
-    | some m => .ok ((if m.inn > last.inn then m.inn else last.inn) + 1)
+  | some last => .ok (maxFrom (g.modules.map (·.inn)) (maxFrom (g.genes.map (·.inn)) last.inn) + 1)
 
 /-- `haveGene` -/
 def Genome.haveGene (g : Genome W) (gene : Gene W) : Bool :=
